@@ -236,6 +236,32 @@ def check(repo: Repo, run: Run) -> None:
     run.analysed.update({"enum_members_with_reference": n_known, "enum_members_without_reference": n_unknown})
     run.floor("R1", "enum members compared with the Darwin table", n_known, 120)
 
+    # ---------------- R6 decoding a word is a pure function of the word: no memo shared between families / calls
+    n_helpers = 0
+    for mod in repo.modules.values():
+        if not mod.name.startswith(TH):
+            continue
+        for fname, fnode in mod.functions.items():
+            rec = interp.run(mod, fnode)
+            selects = any(lr.kind == "comp" and lr.term is not None and any(
+                x.op == "attr" and x.a[1] == "value" and x.a[0].op == "elem" for c in lr.term.a[2][0][2] for x in sym.walk(c))
+                for lr in rec.loops.values())
+            if not selects:
+                continue
+            n_helpers += 1
+            bad = []
+            for e in rec.effects:
+                root = sym.root_of(e.path if e.path is not None else e.base) if (e.path is not None or e.base is not None) else None
+                if root is not None and (root.op == "default" or (root.op == "global" and root.a[0].startswith("pykdebugparser."))):
+                    bad.append((e, root))
+            run.ob("R6", mod.name, fname, "flag decoding keeps no state between calls", not bad,
+                   "" if not bad else
+                   f"{bad[0][0].func.rsplit('.', 1)[-1]} stores into {sym.pretty(bad[0][1])[:40]} (shared by every call"
+                   + (" and every decoder built from this factory" if "<locals>" in bad[0][0].func else "")
+                   + "): the names shown for a word depend on what was decoded before, not only on the bits set",
+                   line=bad[0][0].lineno if bad else fnode.lineno)
+    run.floor("R6", "flag-selection helper functions", n_helpers, 10)
+
     # ---------------- R2-R4 selection sites
     sites = find_sites(repo, interp)
     by_enum: Dict[str, List[Site]] = {}
